@@ -28,6 +28,14 @@ func (m *C11Mon) Stuck(h *Hand, why string) {
 		h.Fail("C11/nothing-offered", opCause(h.lastOp()), why)
 		return
 	}
+	// an action that was on offer to the seat to act (the driver only takes those; refused amounts of bet
+	// and raise are handled separately) and is refused does not "do what it says"
+	if strings.HasPrefix(why, "expected-step-refused") {
+		if op := h.lastOp(); op.Name != "ready" && op.Name != "ante" && op.Name != "blinds" && op.Name != "next" {
+			h.Fail("C11/offered-action-refused", "op="+op.Name, why)
+			return
+		}
+	}
 	h.Rep.Inc("hands_stuck")
 }
 
